@@ -748,7 +748,7 @@ func (r *pkgRun) c05(di, round int, V val.Val, B []byte, hexB, want, bucket stri
 			r.fail("C05", "mismatch", di, mop, fmt.Sprintf("ok %s %d", want, len(B)), "", m.Short(), "model decs on encoding ++ trailing data")
 		}
 	}
-	for _, chunk := range []string{"all", "one", fmt.Sprintf("rnd%d", round*7+di)} {
+	for _, chunk := range []string{"all", "one", fmt.Sprintf("rnd%d", round*7+di), "seek", "bufio"} {
 		op := fmt.Sprintf("decode %d %s %s", di, chunk, data)
 		rd := r.real(op)
 		outcome := "ok"
@@ -784,7 +784,7 @@ func (r *pkgRun) c05(di, round int, V val.Val, B []byte, hexB, want, bucket stri
 			idx += fmt.Sprintf(" %d", e.def)
 		}
 		// "deof": the last record's final bytes arrive together with io.EOF
-		chunk := []string{"all", "one", fmt.Sprintf("rnd%d", round), "deof"}[r.rng.Intn(4)]
+		chunk := []string{"all", "one", fmt.Sprintf("rnd%d", round), "deof", "seek", "bufio"}[r.rng.Intn(6)]
 		op := fmt.Sprintf("decodeseq %s %d%s %s", chunk, n, idx, val.Hex(all))
 		rd := r.real(op)
 		outcome := "ok"
